@@ -192,6 +192,10 @@ func (fst *FSTree) Query(q *query.Query, local, internal bool) (*iterator.Iterat
 func (fst *FSTree) queryExecutor(walkRoot string, queryIter *iterator.Iterator, q *query.Query, local, internal bool) {
 	err := filepath.Walk(walkRoot, func(path string, info os.FileInfo, err error) error {
 		if err != nil {
+			if errors.Is(err, fs.ErrNotExist) {
+				// nothing stored below the query prefix
+				return nil
+			}
 			return fmt.Errorf("fstree: error in walking fs: %w", err)
 		}
 
@@ -222,6 +226,10 @@ func (fst *FSTree) queryExecutor(walkRoot string, queryIter *iterator.Iterator, 
 		key, err := filepath.Rel(fst.basePath, path)
 		if err != nil {
 			return fmt.Errorf("fstree: failed to extract key from filepath %s: %w", path, err)
+		}
+		if !q.MatchesKey(key) {
+			// the walk starts at a directory, the key prefix may be narrower
+			return nil
 		}
 		r, err := record.NewRawWrapper(fst.name, key, data)
 		if err != nil {
